@@ -62,6 +62,11 @@ def check_longest_match(R, F, rule='longest-match'):
     CAT = 'db::hash_map_tree::catalog::'
     lic = F.fn(CAT + 'lookup_in_class')
     rec = calls_in(lic, CAT + 'lookup_in_class')
+    via_closure = [c.gpath for c in F.closures_of(lic.gpath) if calls_in(c, CAT + 'lookup_in_class')]
+    if not rec and via_closure:
+        # recursion through a closure (e.g. `.get(..).and_then(|n| lookup_in_class(n, ..))`): neither form below applies
+        R.bad(rule, lic.gpath + '|deeper-first', lic.where(), 'shape not recognised: lookup_in_class recurses through the closure %s' % via_closure)
+        return
     if rec:
         ors = calls_in(lic, 'Option::<T>::or')
         ok = len(ors) == 1
